@@ -15,19 +15,20 @@ CLAIMED = {
  "C14": ("exploration", "4 C14", "Every executed swap is preceded by the matching Simulation in the same state; attributes, balance deltas and ledger deltas must equal the quote field by field; router multi-hop quotes are compared with the receiver's realised balance increase."),
  "C15": ("exploration", "4 C15", "Boundary generator puts max_spread / belief_price / slippage_tolerance / minimum_receive one ulp around the realised values; acceptance and rejection are compared with exact rational bounds (one-sided, with the rounding band the fixed-point arithmetic is entitled to)."),
  "C17": ("fault_enumeration", "4 C17", "The complete product of {constant-product pair, stableswap pair, 3-pool, vault} x 2^3 toggle combinations x {empty, funded} is executed (64 cases per 64 run indices), every entry path of every operation is attempted under the toggles and again after re-enabling; a disabled path must fail with the full-chain fingerprint unchanged, an enabled path must never be refused as disabled and must succeed when liquidity is present; fresh contracts report all flags on."),
+
+ "C08": ("exploration", "4 C08", "Histories of Bond / Unbond / Withdraw (single, several per block, several per multi-message tx, >30 records) by 3-5 users over 2 denoms on the real whale-lair behind the real fee distributor + collector (or a settable stub), on the clock alphabet around the unbonding period, with invalid variants and injected sub-call / bank / query faults; conservation (balance = bonded + unbonding), totals, per-record model agreement, withdraw pays exactly the caller's matured records, end-of-run liveness."),
+ "C09": ("exploration", "4 C09", "HUB scenario (real collector, distributor, lair, factories, pairs, router, vaults): every Epoch{id} is mirrored after every transaction; ledger identity, roll-over exactly once into the newly created epoch, available backed by the distributor balance, claims paid once per (address, epoch), never for epochs that started before the bonding, payout = ledger decrease; grace-period changes mid-history."),
+ "C10": ("exploration", "4 C10", "Per successful NewEpoch in the HUB scenario the balance deltas of pools, vaults, collector, DAO and distributor are compared with the model: pending fees collected, non-distribution assets either fully swapped through registered routes or untouched, DAO gets floor(rate x balance) recorded in TakeRateHistory, distributor delta = total - roll-over, conservation; ForwardFees by anyone else refused; sub-call / bank / query faults at k in 1..60 of the NewEpoch transaction must revert everything except for the documented query fallbacks."),
+ "C11": ("exploration", "4 C11", "INCENT scenario (real incentive factory + incentive, pair, frontend helper; distributor mock as epoch source): LP custody equals positions + LP-asset flow funds after every step, positions only backed by received LP, withdraw pays exactly the caller's closed positions, helper retains nothing, sub-call faults inside the helper deposit chain revert everything."),
+ "C12": ("exploration", "4 C12", "Flow funding model (received net of fee, claimed) compared with the Flow query and balances after every step over all fee/reward asset kind combinations, declared vs sent amounts, expansions, closes by creator / owner / stranger."),
+ "C13": ("exploration", "4 C13", "Raw GLOBAL_WEIGHT vs sum of raw ADDRESS_WEIGHT after every step, weight monotonicity on paired positions, reward shares vs the snapshot with the permissionless snapshot placed anywhere in the epoch, second claim pays nothing, claims bounded by the epoch emission and equal to the Rewards query taken immediately before."),
+ "C16": ("fault_enumeration", "4 C16", "The complete matrix of 42 privileged / internal-callback variants x {before, after ownership transfer} x 8 caller roles (504 existing cells; run index i executes cell i mod 504 with a payload valid by construction at a random point of background traffic) on the fully wired hub: an unauthorised caller must fail with the full-chain fingerprint unchanged, an authorised caller is never refused for authorisation, ownership transfer moves the rights."),
+ "C18": ("exploration", "4 C18", "Sequences of instantiate / direct update / factory-mediated update / factory create with every bounded parameter on, just inside and just outside its bound through every write path; after every step the Config answers of every tracked instance are compared with the bounds of the property text and a rejected update must leave the fingerprint unchanged."),
+ "C19": ("exploration", "4 C19", "Create / remove / re-create of pairs, trios, vaults, incentives over 6-8 native and cw20 assets in every order against a registry model keyed by asset set; lookups in every permutation, registry entry equals the child's own answers, paginated walks with every page size 1..31 and every cursor return the model set exactly once; router routes only over registered hops, hops over removed pairs never execute."),
+ "C20": ("exploration", "4 C20", "Epoch manager (EPOCH scenario with 0..3 hook receivers that can be made to fail) and fee distributor (HUB scenario): creation attempts by anyone on the clock alphabet (before/at genesis, boundary -1 ns / 0 / +1 ns, k durations late, repeated in one block or one tx) against the exact model: accepted iff due, id+1, start = previous start + duration, k late periods = k consecutive creations, rejected attempt leaves the fingerprint unchanged, every hook notified exactly once per creation, failing hook reverts the creation."),
 }
 
 NOT_YET = {
- "C08": "check not built yet in this snapshot (BOND scenario)",
- "C09": "check not built yet in this snapshot (HUB scenario)",
- "C10": "check not built yet in this snapshot (HUB scenario)",
- "C11": "check not built yet in this snapshot (INCENT scenario)",
- "C12": "check not built yet in this snapshot (INCENT scenario)",
- "C13": "check not built yet in this snapshot (INCENT scenario)",
- "C16": "check not built yet in this snapshot (ALL scenario)",
- "C18": "check not built yet in this snapshot (ALL scenario)",
- "C19": "check not built yet in this snapshot (ALL scenario)",
- "C20": "check not built yet in this snapshot (EPOCH scenario)",
 }
 
 FAULT_ENUM = {"C06", "C16", "C17"}
